@@ -335,3 +335,21 @@ _reg(
     "DESIGN.md 3/C10",
     "Exploration over every registered float component x transformations; the batching / differentiation rules of the substitute primitives are exercised through the real export.",
 )
+
+_reg(
+    "C08",
+    "exploration",
+    "cases = registered testcases (two symbol bindings each) + the 60 control-flow programs of C06 at their steering inputs (trip counts 0, 1, k; "
+    "both branches) + the 36 shape-arithmetic programs of C04 + the 31 function-boundary programs of C07. For every run: (1) the top-level graph "
+    "is re-executed with every annotated value as an extra output; (2) every FunctionProto body is executed as a standalone model fed with the "
+    "tensors observed at its call site (recursively); (3) a driver runs If branches (both) and Loop bodies iteration by iteration as standalone "
+    "graphs with the captured outer values observed in (1), checks every annotated inner value at every iteration and cross-checks its final "
+    "carried values against ORT's own execution of the Loop; declared element type, rank, every concrete dimension and every user symbol (bound "
+    "by the inputs of that run) are compared with the runtime tensor; (4) postprocess_ir_model is wrapped: intermediate annotations may only get "
+    "weaker (None <= symbolic <= concrete), graph inputs/outputs must not change. evaluations = model runs monitored; non-trivial = >= 1 annotated "
+    "intermediate executed; distinct = (program, binding / steering input).",
+    (800, 700, 4000, 3500),
+    "annotation monitor: every annotated value exposed and executed (top graph, function bodies, Loop/If bodies via a body driver); declared dtype/dims vs runtime tensor; pre/post snapshot around post-processing",
+    "DESIGN.md 3/C08",
+    "Exploration over all values of all exported models x symbol bindings / trip counts; Scan nodes are not driven (counted).",
+)
